@@ -1854,6 +1854,11 @@ fn read_residuals<R: BitRead, I: SignedInteger>(
                     partition.iter_mut().try_for_each(|s| {
                         let msb = reader.read_unary::<1>()?;
                         let lsb = reader.read_counted::<RICE_MAX, u32>(rice)?;
+                        // residuals are 32-bit values,
+                        // so the folded value must fit 32 bits
+                        if msb > (u32::MAX >> u32::from(rice)) {
+                            return Err(Error::ResidualOverflow.into());
+                        }
                         let unsigned = (msb << u32::from(rice)) | lsb;
                         *s = if (unsigned & 1) == 1 {
                             -(I::from_u32(unsigned >> 1)) - I::ONE
